@@ -86,6 +86,11 @@ def decodeID (stream : Bytes) : Nat :=
   | none => transferErr
   | some (b, _) => getU32 b
 
+/-- hand-over of one connection (`transferRead` in the old process, `transferHandler`/`transferNewConn` in the new one):
+the read buffer and TLS bytes the new process's connection starts with. -/
+def handover (buffered tls : Bytes) : Option (Bytes × Bytes) :=
+  (decodeRead (encodeRead buffered tls)).map (fun r => (r.1, r.2.1))
+
 /-- type byte of `transferSendType` (`withFD` = transfer read) and what `transferRecvType` makes of it. -/
 def typeByte (withFD : Bool) : Nat := if withFD then typeRead else typeWrite
 def recvIsWrite (b : Nat) : Bool := b == recvTypeWrite
